@@ -24,6 +24,15 @@ def _code_impls(F):
     return out
 
 
+def _propagated(f, call):
+    """the Result of `call` reaches a `?` (Try::branch) or the function's return value"""
+    for b in f.calls_to(r"ops::Try::branch$"):
+        if any(bb == call.idx for bb, _ in backslice(f, b.term.args[0], "prov", extra_transparent=[r"Result::<T, E>::map_err$"]).calls):
+            return True
+    ret = mir.Operand({"c": {"l": 0, "p": []}})
+    return any(bb == call.idx for bb, _ in backslice(f, ret, "prov", extra_transparent=[r"Result::<T, E>::map_err$"]).calls)
+
+
 def code_symmetry(r, F):
     impls = _code_impls(F)
     nums = [t for t in impls if re.match(r"^[uif](8|16|32|64|128|size)$", t)]
@@ -74,6 +83,15 @@ def code_symmetry(r, F):
             errs = [s for bb in oth for s in d.blocks[bb].stmts if s.k == "assign" and s.rv.k == "agg" and s.rv.j.get("variant") in ("Err", "Parse")]
             okb = res.get(0) == {0} and res.get(1) == {1} and bool(errs)
     r.require(okb, d, "bool decode table {0->false, 1->true, else Err}", "exactly the two encodings are accepted", "bool::decode does not map 0/1 to false/true and reject other bytes", ln=d.lo)
+    # ... of the byte that was READ: one read_exact into the tested buffer, before the test, its error propagated
+    rex = d.calls_to(r"io::Read::read_exact$")
+    sws = [sw for sw in mir.find_switches(d) if sorted(v for v, _ in sw.term.j["ts"]) == [0, 1]]
+    okr = len(rex) == 1 and bool(sws)
+    if okr:
+        buf = {l for l in backslice(d, rex[0].term.args[1], "prov").locals if re.match(r"^\[u8; 1\]$", d.local_ty(l) or "")}
+        okr = bool(buf) and any(d.dominates(rex[0].idx, sw.idx) and (backslice(d, sw.term.discr, "prov").locals & buf) for sw in sws) and _propagated(d, rex[0])
+    r.require(okr, d, "bool decode reads the tested byte", "read_exact into the 1-byte buffer dominates the {0,1} test; its error is propagated",
+              "bool::decode does not read the byte it tests (or drops the read error): every stored bool decodes as the buffer's initial value", ln=d.lo)
     # length-prefixed: Vec<u8>, String, Bytes: usize length first, then the bytes; decode reads the same order with read_exact
     for t in ("std::vec::Vec<u8>", "std::string::String", "bytes::Bytes"):
         m = impls.get(t)
@@ -90,6 +108,17 @@ def code_symmetry(r, F):
         # the length written is len() of what is written; the decoded buffer length is the decoded prefix
         ok = ok and backslice(e, lenenc[0].term.args[0], "prov").has_call(r"::len$")
         r.require(ok, e, "%s: usize length prefix then bytes" % t.rsplit("::", 1)[-1], "length prefix type and order agree; exact-length read", "the length-prefixed encoding of %s is not symmetric" % t, ln=e.lo)
+        # the buffer handed to read_exact has exactly the decoded length: it is sized (set_len / resize / vec![0; len]) from the prefix before the read,
+        # and the read's error is propagated
+        oks = False
+        if len(lendec) == 1 and len(rex) == 1:
+            sizing = [b for b in d.calls_to(r"Vec::<T, A>::(set_len|resize)$|vec::from_elem$")
+                      if any(any(bb == lendec[0].idx for bb, _ in backslice(d, a, "prov").calls) for a in b.term.args[1:] if a.place is not None) or
+                      (b.term.callee.endswith("from_elem") and any(any(bb == lendec[0].idx for bb, _ in backslice(d, a, "prov").calls) for a in b.term.args if a.place is not None))]
+            vecs = {l for l in backslice(d, rex[0].term.args[1], "prov").locals if (d.local_ty(l) or "").startswith("std::vec::Vec<u8")}
+            oks = any(d.dominates(b.idx, rex[0].idx) and (b.term.callee.endswith("from_elem") or (backslice(d, b.term.args[0], "prov").locals & vecs)) for b in sizing) and _propagated(d, rex[0])
+        r.require(oks, d, "%s: decode buffer sized from the prefix, read error propagated" % t.rsplit("::", 1)[-1], "set_len/resize(len) on the buffer dominates read_exact",
+                  "the decode buffer of %s is not sized to the decoded length before read_exact (an empty buffer reads nothing: every value decodes as empty), or the read error is dropped" % t, ln=d.lo)
         for f, c in ((e, lenenc[0]), (d, lendec[0])):
             tr = tables.variant_switch_on(f, c.idx)
             prop = any(f.callee_generics(b.term) and b.idx for b in f.calls_to(r"ops::Try::branch$") if any(bb == c.idx for bb, _ in backslice(f, b.term.args[0], "prov").calls))
